@@ -175,3 +175,40 @@ package collection
 //@   loop 0: invariant forall(x.(*timingEntry), implies(old(allocated(x)) && old(listOf[x]) != l,
 //@              listOf[x] == old(listOf[x]) && x.removed == old(x.removed) && x.circle == old(x.circle) && x.diff == old(x.diff)))
 //@   loop 0: invariant forall(x.(*timingEntry), implies(fired[x] && !old(fired[x]), seen[x] && !old(x.removed) && old(x.circle) <= 0 && old(x.diff) <= 0))
+
+// ---- Drain ----
+//@ ghost var drainCount map[*timingEntry]int
+//@ spec drained(tw *TimingWheel, x *timingEntry) bool = listOf[x] == nil && drainCount[x] == old(drainCount[x]) + ite(old(x.removed), 0, 1) &&
+//@      implies(!old(x.removed), !smHas(tw.timers, x.key))
+
+//@ func (tw *TimingWheel) drainAll
+//@   property C12
+//@   requires wheelOK(tw) && timersOK(tw) && liveOK(tw)
+//@   ensures  wheelOK(tw) && timersOK(tw) && liveOK(tw)
+//@   ensures  forall(x.(*timingEntry), implies(old(inWheel(tw, x)), drained(tw, x)))
+//@   ensures  forall(x.(*timingEntry), implies(!old(inWheel(tw, x)), drainCount[x] == old(drainCount[x])))
+//@   ensures  forall(k.(any), !smHas(tw.timers, k))
+//@   modifies listOf, drainCount, smH[tw.timers], smV[tw.timers]
+//@   allocates
+//@   ghost at before Schedule#0: drainCount[task] = drainCount[task] + 1
+//@   loop 0: modifies listOf, drainCount, smH[tw.timers], smV[tw.timers]
+//@   loop 0: invariant wheelOK(tw)
+//@   loop 0: invariant forall(x.(*timingEntry), implies(old(inWheel(tw, x)) && slotIdx[old(listOf[x])] < idx, drained(tw, x)))
+//@   loop 0: invariant forall(x.(*timingEntry), implies(old(inWheel(tw, x)) && slotIdx[old(listOf[x])] >= idx, listOf[x] == old(listOf[x]) && drainCount[x] == old(drainCount[x])))
+//@   loop 0: invariant forall(x.(*timingEntry), implies(!old(inWheel(tw, x)), listOf[x] == old(listOf[x]) && drainCount[x] == old(drainCount[x])))
+//@   loop 0: invariant forall(k.(any), implies(smHas(tw.timers, k), old(smHas(tw.timers, k)) && pe(tw, k) == old(pe(tw, k))))
+//@   loop 1: listiter(e, slot)
+//@   loop 1: modifies listOf, drainCount, smH[tw.timers], smV[tw.timers]
+//@   loop 1: invariant wheelOK(tw) && 0 <= slotIdx[slot] && slotIdx[slot] < tw.numSlots && tw.slots[slotIdx[slot]] == slot
+//@   loop 1: invariant forall(x.(*timingEntry), implies(old(inWheel(tw, x)) && slotIdx[old(listOf[x])] < slotIdx[slot], drained(tw, x)))
+//@   loop 1: invariant forall(x.(*timingEntry), implies(old(listOf[x]) == slot && seen[x], drained(tw, x)))
+//@   loop 1: invariant forall(x.(*timingEntry), implies(old(listOf[x]) == slot && !seen[x], listOf[x] == slot && drainCount[x] == old(drainCount[x])))
+//@   loop 1: invariant forall(x.(*timingEntry), implies(seen[x] || listOf[x] == slot, old(listOf[x]) == slot))
+//@   loop 1: invariant forall(x.(*timingEntry), implies(old(inWheel(tw, x)) && slotIdx[old(listOf[x])] > slotIdx[slot], listOf[x] == old(listOf[x]) && drainCount[x] == old(drainCount[x])))
+//@   loop 1: invariant forall(x.(*timingEntry), implies(!old(inWheel(tw, x)), listOf[x] == old(listOf[x]) && drainCount[x] == old(drainCount[x])))
+//@   loop 1: invariant forall(k.(any), implies(smHas(tw.timers, k), old(smHas(tw.timers, k)) && pe(tw, k) == old(pe(tw, k))))
+
+//@ func (tw *TimingWheel) drainAll closure 0
+//@   property C12
+//@   flag callbacks_noheap
+//@   ensures calls(fn) == old(calls(fn)) + 1 && argOf(fn, 0) == task.key && argOf(fn, 1) == task.value
